@@ -105,6 +105,9 @@ def r1_lock_before_index(chk: Check):
             if "xplock" in src(c.func) and tail(c) in ("__exit__", "release") and ff.key != ex.key:
                 others.append(ff.qual)
     chk.require(not others, chk.fkey(ex, "only __exit__ releases"), f"{others} release the experiment lock", chk.loc(ex.module, ex.node))
+    from .c05 import lock_files_never_removed
+
+    lock_files_never_removed(chk)
 
 
 def r2_move_complete(chk: Check):
